@@ -19,6 +19,7 @@ import (
 	"unsafe"
 
 	"github.com/irai/packet"
+	"github.com/irai/packet/fastlog"
 	"pvharness/cmd/c01/pgen"
 	"pvharness/lib"
 )
@@ -97,6 +98,9 @@ func writeThrough(a []string) string {
 const allocRuns = 40
 
 func allocs(a []string) string {
+	// the counter model is for the library's default level (info): the online-transition log line is built under
+	// IsInfo; the other kinds rotate the level per frame (pgen.RotateLevel), so it is set here explicitly
+	packet.Logger.SetLevel(fastlog.LevelInfo)
 	c := pgen.CfgOfToks(a[0:4])
 	state := a[4]
 	frame := lib.UnHex(a[5])
